@@ -2,7 +2,7 @@
 # developer tool: applies every kept seeded change to /repo in turn (git apply ... / git checkout -- .), runs the property's quick check,
 # and records exit code and the failed obligations in /verif/seeded/<ID>-<x>/check_result.json.  Never commits anything to /repo.
 cd /verif
-for d in /verif/seeded/C*-[ab]; do
+for d in /verif/seeded/C*-[a-z]; do
   n=$(basename $d); ID=${n%-*}
   if [ -n "$1" ] && [ "$1" != "$ID" ] && [ "$1" != "$n" ]; then continue; fi
   git -C /repo diff --quiet || { echo "/repo working tree is not clean"; exit 2; }
